@@ -436,11 +436,21 @@ impl WireEncode for WireHostAddr {
             WireHostAddr::V4(_) => Ok(()),
             WireHostAddr::V6(_) => Ok(()),
             WireHostAddr::Svc(_) => Ok(()),
-            WireHostAddr::Unknown { bytes, .. } => {
+            WireHostAddr::Unknown { id, bytes } => {
                 if bytes.is_empty() {
                     Err("ScionHostAddr::Unknown bytes.len() must be non-zero".into())
                 } else if !bytes.len().is_multiple_of(4) {
                     Err("ScionHostAddr::Unknown bytes.len() must be a multiple of 4".into())
+                } else if *id > 0b11 {
+                    // The address type is a 2 bit field, a larger id would be encoded truncated.
+                    Err("ScionHostAddr::Unknown id must fit in 2 bits".into())
+                } else if !matches!(
+                    WireHostAddrType::from(u8::from(self.addr_type())),
+                    WireHostAddrType::Unknown { .. }
+                ) {
+                    // Type and length together denote a known address type (IPv4, IPv6, service),
+                    // the address would be decoded as that type.
+                    Err("ScionHostAddr::Unknown id and length denote a known address type".into())
                 } else {
                     Ok(())
                 }
